@@ -217,7 +217,8 @@ def _second_sentence(ctx, impl, desc, rng, quick, nmax):
         for demo, changed in sorted(out['ok'].items()):
             ctx.count('direct:' + demo, (demo, spec['coo'], bspec['coo'], args['seed']), nontrivial=len(spec['coo']) > 1)
             if isinstance(changed, str):
-                continue                       # the call raised: not this property's business
+                ctx.extra.setdefault('direct_call_errors', {})[demo] = changed   # the call raised: not this property's business
+                continue
             if demo.startswith('(by design)'):
                 seen += bool(changed) if demo in BY_DESIGN else 0
                 if demo == '(by design) get_dendrogram[copy_tree]' and changed:
@@ -230,16 +231,32 @@ def _second_sentence(ctx, impl, desc, rng, quick, nmax):
         if seen != len(BY_DESIGN):
             ctx.notes.append('snapshot machinery did not see the by-design writes (%d of %d)' % (seen, len(BY_DESIGN)))
             ctx.proof_broken.append('argmut: the snapshot oracle does not see the writes of svg_text / get_dendrogram any more (review Props/C01.v)')
-    # (d) what the static side currently says
+    # (d) what the static side currently says, and a readable diagnosis when it no longer matches the reviewed list
+    coq = os.environ.get('VERIF_COQ') or os.path.join(os.path.dirname(os.path.dirname(os.path.dirname(os.path.abspath(__file__)))), 'coq')
     try:
-        txt = open(os.path.join(os.environ.get('VERIF_COQ') or os.path.join(os.path.dirname(os.path.dirname(os.path.dirname(os.path.abspath(__file__)))), 'coq'),
-                                'Gen', 'ArgMut.v')).read()
+        txt = open(os.path.join(coq, 'Gen', 'ArgMut.v')).read()
+        props = open(os.path.join(coq, 'Props', 'C01.v')).read()
+        gen1 = txt.split('Definition arg_mutations :')[-1].split('Definition arg_mutations_undocumented_types :')[0]
+        gen2 = txt.split('Definition arg_mutations_undocumented_types :')[-1].split('(* writes, per writer')[0]
+        quad = r'\("([^"]*)", "([^"]*)", "([^"]*)", "([^"]*)"\)'
+        tri = r'\("([^"]*)", "([^"]*)", "([^"]*)"\)'
+        cur1, cur2 = re.findall(quad, gen1), re.findall(quad, gen2)
+        rev1 = set(re.findall(tri, props.split('Theorem arg_mutations_reviewed')[-1].split('Proof.')[0]))
+        rev2 = set(re.findall(tri, props.split('Theorem arg_mutations_undocumented_types_reviewed')[-1].split('Proof.')[0]))
         ctx.extra['argmut'] = dict(
             functions_scanned=int(re.search(r'n_functions_scanned : nat := (\d+)', txt).group(1)),
             public_entry_points=int(re.search(r'n_public_entry_points : nat := (\d+)', txt).group(1)),
-            entries=len(re.findall(r'^  \("', txt.split('arg_mutations_undocumented_types')[0], re.M)),
-            entries_undocumented_types=len(re.findall(r'^  \("', txt.split('arg_mutations_undocumented_types :')[-1], re.M)))
-    except (OSError, AttributeError, ValueError):
+            entries=len(cur1), entries_undocumented_types=len(cur2))
+        new = [e for e in cur1 if e[:3] not in rev1] + [e for e in cur2 if e[:3] not in rev2]
+        gone = sorted((rev1 - {e[:3] for e in cur1}) | (rev2 - {e[:3] for e in cur2}))
+        if new:
+            ctx.extra['argmut']['new_entries'] = new[:40]
+            ctx.proof_broken.append('argmut: %d (function, parameter, writer) entries are not in the reviewed list of Props/C01.v, e.g. %s'
+                                    % (len(new), '; '.join('%s(%s) written in %s via %s' % e for e in new[:3])))
+        elif gone:
+            ctx.extra['argmut']['entries_gone'] = gone[:40]
+            ctx.notes.append('argmut: reviewed entries no longer produced by the tree: %s' % gone[:5])
+    except (OSError, AttributeError, ValueError, IndexError):
         pass
 
 
